@@ -517,6 +517,10 @@ func (r *Raft) setCommitIndex(index uint64) (configCommitted bool) {
 		println(r, "commitIndex", r.commitIndex)
 	}
 	if !r.configs.IsCommitted() && r.configs.Latest.Index <= r.commitIndex {
+		// removed means: member of the configuration committed before this one.
+		// a node that was added later also replays the configurations from the
+		// time before it joined, and it is in none of them
+		_, wasMember := r.configs.Committed.Nodes[r.nid]
 		r.commitConfig()
 		configCommitted = true
 		if r.state == Leader && !r.configs.Latest.isVoter(r.nid) {
@@ -528,7 +532,7 @@ func (r *Raft) setCommitIndex(index uint64) (configCommitted bool) {
 			r.setState(Follower)
 			r.setLeader(0)
 		}
-		if r.shutdownOnRemove {
+		if r.shutdownOnRemove && wasMember {
 			if _, ok := r.configs.Latest.Nodes[r.nid]; !ok {
 				r.doClose(ErrNodeRemoved)
 			}
